@@ -335,7 +335,32 @@ func (x *vfSide) awaitReaders() error {
 		return nil
 	}
 	deadline := time.Now().Add(20 * time.Second)
+	// only sockets that carry a local candidate have a read loop (a TURN control socket, for one, has none)
+	held := map[*vfConn]bool{}
+	_ = x.a.loop.Run(x.a.loop, func(context.Context) {
+		for _, set := range x.a.localCandidates {
+			for _, c := range set {
+				var pc net.PacketConn
+				switch v := c.(type) {
+				case *CandidateHost:
+					pc = v.conn
+				case *CandidateServerReflexive:
+					pc = v.conn
+				case *CandidatePeerReflexive:
+					pc = v.conn
+				case *CandidateRelay:
+					pc = v.conn
+				}
+				if vc, ok := pc.(*vfConn); ok {
+					held[vc] = true
+				}
+			}
+		}
+	})
 	for _, c := range x.sess.sw.openSockets(x.name) {
+		if !held[c] {
+			continue
+		}
 		for c.waiting.Load() == 0 && !c.isClosed() {
 			if time.Now().After(deadline) {
 				return fmt.Errorf("%w: read loop of %s never started", errVfQuiesce, c.local)
